@@ -1,6 +1,7 @@
 package drivers
 
 import (
+	"errors"
 	"bytes"
 	"encoding/json"
 	"fmt"
@@ -41,8 +42,9 @@ func liveHeap() uint64 {
 }
 
 type discardProc struct {
-	n       int
-	onEntry func(n int)
+	n        int
+	onEntry  func(n int)
+	failFrom int // > 0: every entry from this one on is refused (a store which starts failing in the middle of a load)
 }
 
 func (d *discardProc) StartUpdateCrl(*crlreader.CRLMetaInfo) error { return nil }
@@ -50,6 +52,9 @@ func (d *discardProc) InsertRevokedCertificate(e *crlreader.CRLEntry) error {
 	d.n++
 	if d.onEntry != nil {
 		d.onEntry(d.n)
+	}
+	if d.failFrom > 0 && d.n >= d.failFrom {
+		return errors.New("injected: the store refuses this entry")
 	}
 	return nil
 }
@@ -113,6 +118,34 @@ func c17Reader(chk *fw.Check, n int, pemEnc bool, dir string) (samples int, peak
 		chk.Violation("C17|reader-live-heap-grows|"+enc, fmt.Sprintf("live heap while streaming a %s CRL with %d entries grew by %d bytes over its value at the first entry (bound 1 MiB)", enc, n, worst), map[string]interface{}{"n": n, "pem": pemEnc})
 	}
 	return samples, worst
+}
+
+// c17ReaderFailingStore: the consumer refuses every entry from the 1000th on. However the reader deals with that
+// (it may stop at once or go on), nothing may pile up per remaining entry.
+func c17ReaderFailingStore(chk *fw.Check, n int, dir string) {
+	path := filepath.Join(dir, "failing.crl")
+	os.WriteFile(path, c17Doc(n, false), 0600)
+	defer os.Remove(path)
+	var base uint64
+	worst := int64(0)
+	proc := &discardProc{failFrom: 1000}
+	proc.onEntry = func(k int) {
+		switch {
+		case k == 1000:
+			base = liveHeap()
+		case k > 1000 && (k%4096 == 0 || k == n):
+			if d := int64(liveHeap()) - int64(base); d > worst {
+				worst = d
+			}
+		}
+	}
+	_, err := crlreader.StreamingCRLFileReader{}.ReadCRL(proc, path)
+	if err == nil {
+		chk.Violation("C17|reader-ignores-consumer-error", fmt.Sprintf("the consumer refused every entry from the 1000th of %d on, the reader reported success", n), nil)
+	}
+	if worst > mib {
+		chk.Violation("C17|reader-live-heap-grows|consumer-failing", fmt.Sprintf("a consumer which refuses every entry from the 1000th on: the reader went on to entry %d and the live heap grew by %d bytes meanwhile (bound 1 MiB)", proc.n, worst), map[string]interface{}{"n": n})
+	}
 }
 
 // zeroBody produces size bytes lazily.
@@ -376,7 +409,9 @@ func c17RefreshFootprint(chk *fw.Check, n int, dir string) int64 {
 	path := filepath.Join(dir, "refresh.crl")
 	os.WriteFile(path, c17Doc(n, false), 0600)
 	defer os.Remove(path)
-	out, err := exec.Command(os.Args[0], "C17", "--tier", "worker", "--", "refreshfootprint", path, fmt.Sprint(n)).Output()
+	cmd := exec.Command(os.Args[0], "C17", "--tier", "worker", "--", "refreshfootprint", path, fmt.Sprint(n))
+	cmd.Env = c17WorkerEnv()
+	out, err := cmd.Output()
 	var r struct {
 		Before  int64            `json:"heap_sys_before"`
 		After   int64            `json:"heap_sys_after"`
@@ -407,12 +442,21 @@ const c17RefreshBound = 96 * mib
 // are not both inserts, by kind of interval
 var c17RefreshSteps = map[int]map[string]int64{}
 
+// c17WorkerEnv: the footprint workers run on one P with a tight collector. With a single P the collector cannot fall
+// behind the allocating goroutine for lack of CPU (assists make the allocator pay), so the high-water mark of the heap
+// does not depend on how busy the machine is.
+func c17WorkerEnv() []string {
+	return append(os.Environ(), "GOMAXPROCS=1", "GOGC=50")
+}
+
 // c17Footprint: heap footprint of reading doc in a fresh process must stay below 32 MiB whatever the size.
 func c17Footprint(chk *fw.Check, name string, doc []byte, n int, dir string) int64 {
 	path := filepath.Join(dir, "footprint.crl")
 	os.WriteFile(path, doc, 0600)
 	defer os.Remove(path)
-	out, err := exec.Command(os.Args[0], "C17", "--tier", "worker", "--", "footprint", path).Output()
+	cmd := exec.Command(os.Args[0], "C17", "--tier", "worker", "--", "footprint", path)
+	cmd.Env = c17WorkerEnv()
+	out, err := cmd.Output()
 	var r struct {
 		Before  int64  `json:"heap_sys_before"`
 		After   int64  `json:"heap_sys_after"`
@@ -477,6 +521,9 @@ func RunC17(tier string, args []string) int {
 			}
 		}
 	}
+	c17ReaderFailingStore(chk, 1<<maxK, dir)
+	evals++
+	distinct++
 	sizes := []int64{1 << 20, 16 << 20, 64 << 20}
 	if tier == "thorough" {
 		sizes = append(sizes, 512<<20)
